@@ -274,6 +274,20 @@ func mkPoint(m map[string]string, t int64) edge.PointMessage {
 		parseFields(m["fields"]), parseTags(m["tags"]), tm(t))
 }
 
+// mkBatch builds a buffered batch: pts = "t^fields!t^fields" (or "-").
+func mkBatch(m map[string]string, tmax int64) edge.BufferedBatchMessage {
+	tags := parseTags(m["tags"])
+	var pts []edge.BatchPointMessage
+	if m["pts"] != "-" && m["pts"] != "" {
+		for _, e := range strings.Split(m["pts"], "!") {
+			i := strings.IndexByte(e, '^')
+			pts = append(pts, edge.NewBatchPointMessage(parseFields(e[i+1:]), tags, tm(atoi(e[:i]))))
+		}
+	}
+	begin := edge.NewBeginBatchMessage(un(m["name"]), tags, m["byname"] == "1", tm(tmax), len(pts))
+	return edge.NewBufferedBatchMessage(begin, pts, edge.NewEndBatchMessage())
+}
+
 func dimsStr(d models.Dimensions) string {
 	var ds []string
 	for _, x := range d.TagNames {
@@ -293,11 +307,11 @@ func renderMsg(m edge.Message) string {
 	case edge.BarrierMessage:
 		return fmt.Sprintf("B;%d;%s", x.Time().UnixNano(), kit.Esc(string(x.GroupID())))
 	case edge.BufferedBatchMessage:
-		var ps []string
+		ps := []string{strconv.Itoa(len(x.Points()))}
 		for _, p := range x.Points() {
-			ps = append(ps, fmt.Sprintf("%d/%s/%s", p.Time().UnixNano(), kit.TagsStr(p.Tags()), kit.FieldsStr(p.Fields())))
+			ps = append(ps, fmt.Sprintf("%d^%s^%s", p.Time().UnixNano(), kit.TagsStr(p.Tags()), kit.FieldsStr(p.Fields())))
 		}
-		return fmt.Sprintf("Q;%s;%d;%s;%s;%s", kit.Esc(x.Name()), x.Time().UnixNano(), dimsStr(x.Dimensions()), kit.TagsStr(x.Tags()), strings.Join(append([]string{strconv.Itoa(len(ps))}, ps...), "!"))
+		return fmt.Sprintf("Q;%s;%d;%s;%s;%s", kit.Esc(x.Name()), x.Time().UnixNano(), dimsStr(x.Dimensions()), kit.TagsStr(x.Tags()), strings.Join(ps, "!"))
 	case edge.DeleteGroupMessage:
 		return "D;" + kit.Esc(string(x.GroupID()))
 	}
@@ -532,6 +546,14 @@ func execCase(ops []string) (out []string) {
 				line = stripKey(line, "grp") + " grp=" + kit.Esc(string(p.GroupID()))
 				guard(line, func() string {
 					ms, err := r.jn.Point(int(atoi(t[2])), p)
+					return r.joinOut(ms, err, false)
+				})
+			case "bat": // j bat <src> <tmax> name= byname= tags= pts= [grp=]
+				m := kv(t[4:])
+				b := mkBatch(m, atoi(t[3]))
+				line = stripKey(line, "grp") + " grp=" + kit.Esc(string(b.GroupID()))
+				guard(line, func() string {
+					ms, err := r.jn.BufferedBatch(int(atoi(t[2])), b)
 					return r.joinOut(ms, err, false)
 				})
 			case "bar": // j bar <src> <time> name= byname= dims= tags= [grp=]
